@@ -593,3 +593,27 @@ def m_main_separator(it, argv, text):
 @model('MAIN_SEPARATOR_STR')
 def m_main_separator_str(it, argv, text):
     return StrV((47,))
+
+
+# ----------------------------------------------------------------------------- thread-local storage (round 4)
+
+@model('LocalKey::new')
+def m_localkey_new(it, argv, text):
+    a = argv[0]
+    return OpaqueV('LocalKey', getattr(a, 'name', repr(a)))
+
+
+@model('LocalKey::with', 'LocalKey::with_borrow', 'LocalKey::with_borrow_mut')
+def m_localkey_with(it, argv, text):
+    """thread_local!: one value per thread, lazily initialised.  All tasks of a run execute on the interpreter's single
+    (modelled) worker thread, so the value persists from one task to the next -- exactly what one worker thread sees."""
+    key = ('tls', it.deref_all(argv[0]).data if isinstance(it.deref_all(argv[0]), OpaqueV) else 'tls')
+    if key not in it.heap:
+        init = it.m.free.get('__rust_std_internal_init_fn')
+        if init is None:
+            raise Unsupported("thread_local! without a recognisable initialiser")
+        it.heap[key] = it.call_mir(init, [])
+    ref = RefV(Addr(('H', key)))
+    if text.split('::')[-1].startswith('with_borrow'):
+        raise Unsupported("LocalKey::with_borrow*")
+    return it.call_value(argv[1], [ref])
